@@ -122,6 +122,7 @@ def compare(gd, gd2, tf, out, out2, prune, an):
                                  "g": r1[3][s], "g2": r2[3][perm[s]], "tol": tol})
     # reachability strategies
     tie_split = False
+    unresolved = False
     for s in range(n):
         if gd["players"][s] == PR:
             if r2[1][perm[s]] is not None or r2[0][perm[s]] is not None:
@@ -169,8 +170,15 @@ def compare(gd, gd2, tf, out, out2, prune, an):
             problems.append({"state": s, "problem": "reachability strategy changed beyond the renaming", "g": r1[1][s], "g2": got, "expected": exp})
         else:
             stats["strategy_states_skipped"] += 1
+            unresolved = True
     if tie_split:
         return problems, known, stats          # downstream differences are attributed to the tie split
+    if unresolved:
+        # the two presentations report different reachability strategies at a state whose competing successors are neither exactly
+        # tied nor separated by more than the tolerance (outside the property's claim): the restricted games may legitimately
+        # differ from here on, so rewards / final strategies / diagnostics of this pair are not compared
+        stats["tol_inconclusive_pairs"] = 1
+        return problems, known, stats
     # the open sub-tolerance finding at inner states: a state whose true value is positive but within the convergence band is
     # reported as exactly 0 in one presentation (the sweeps stopped before it was reached) and as a tiny positive number in the other.
     # With pruning, conditioning then treats it as dead in one of them only: the two conditioned games are different games, and
